@@ -550,7 +550,7 @@ func goLiteral(t types.Type, name string, model map[string]string, qual types.Qu
 
 // replayObligation builds and runs a replay test for a refuted obligation.
 func (ctx *checkCtx) replayObligation(r *FuncResult, o *Obligation) (string, string) {
-	dir := filepath.Join(verifDir(), "replays", ctx.prop)
+	dir := filepath.Join(outDir(), "replays", ctx.prop)
 	os.MkdirAll(dir, 0755)
 	path := filepath.Join(dir, smtIdent(o.Name)+".go")
 	src, pkgDir, why := ctx.genReplay(r, o)
